@@ -77,6 +77,9 @@ def plan(prop, tier, seed):
     shards += [{"kind": "enum", "nmax": nmax, "shard": i, "of": nsh, "hz": hz} for i in range(nsh)]
     nr = 8 if q else 32
     shards += [{"kind": "random", "n": 500 if q else 3000, "shard": i, "hz": hz} for i in range(nr)]
+    if prop in ("C02", "C08"):
+        # every mnemonic x operand class through the stage-split path (alu_compute / memory_access / write_back)
+        shards += [{"kind": "instr5", "n": 1500 if q else 25000, "shard": i, "hz": hz} for i in range(4 if q else 16)]
     if prop == "C07":
         shards += [{"kind": "straight", "n": 150 if q else 2500, "shard": i, "hz": True} for i in range(2)]
         shards += [{"kind": "cached", "n": 150 if q else 1500, "shard": i, "hz": True} for i in range(4 if q else 16)]
@@ -165,6 +168,12 @@ def run_shard(spec, res):
             else:
                 prog, regs = G.structured_program(rng, size=rng.randint(4, 40), aligned=True, faults=rng.random() < 0.25)
             case = {"kind": "pipe", "prog": prog, "regs": regs, "mem": G.init_mem(rng), "hz": hz, "max_instr": 250}
+        elif kind == "instr5":
+            ic = G.instr_case(rng, G.ALL[(it + spec["shard"]) % len(G.ALL)] if it % 2 == 0 else None)
+            k = rng.choice([0, 0, 1, 2, 3])
+            pre = [dict(NOP) for _ in range(k)] if rng.random() < 0.5 else [G._alu(rng, [1, 2, 5, 10]) for _ in range(k)]
+            post = [G._alu(rng, [1, 2, 5, 10, 17]) for _ in range(rng.choice([0, 1, 2]))]
+            case = {"kind": "pipe", "prog": pre + [ic["instr"]] + post, "regs": ic["regs"], "mem": ic["mem"], "hz": hz, "max_instr": 20}
         elif kind == "straight":
             n = rng.randint(1, 40)
             case = {"kind": "pipe", "prog": G.straightline_independent(rng, n), "regs": {}, "mem": {}, "hz": True, "max_instr": 100, "straight": True}
